@@ -186,6 +186,10 @@ Qed.
 (* ls = last block numbers of sets 0, 1, ..., k-1 (k = current set id).  Substrate stores
    [(0, L0); (1, L1); ...]; gossamer stores setIDChangeKey(0) -> 0, setIDChangeKey(i+1) -> Li. *)
 Definition geq (n L : N) : bool := n <=? L.
+Lemma geq_le : forall n L, geq n L = true -> n <= L.
+Proof. intros. apply N.leb_le. assumption. Qed.
+Lemma geq_gt : forall n L, geq n L = false -> L < n.
+Proof. intros. apply N.leb_gt. assumption. Qed.
 Fixpoint sorted_n (l : list N) : bool :=
   match l with
   | [] => true
@@ -205,7 +209,7 @@ Lemma s_setid_in_first : forall ls k n,
 Proof.
   induction ls as [|L ls IH]; intros k n; [reflexivity|].
   unfold spec_table_from. cbn [length seq map combine s_setid_in first_idx].
-  unfold geq at 1 2. destruct (n <=? L) eqn:E.
+  change (geq n L) with (n <=? L). destruct (n <=? L) eqn:E.
   - cbn [Nat.ltb Nat.leb]. f_equal. f_equal. lia.
   - fold (spec_table_from (S k) ls). rewrite IH.
     change (S (first_idx (geq n) ls) <? S (length ls))%nat
@@ -232,10 +236,8 @@ Proof.
   intros ls n c Hs Hc Hu Hl.
   pose proof (first_idx_le (geq n) ls) as B.
   destruct (Nat.lt_trichotomy (first_idx (geq n) ls) c) as [H|[H|H]]; [|exact H|].
-  - pose proof (first_idx_true (geq n) 0 ls ltac:(lia)) as T. unfold geq in T.
-    apply N.leb_le in T. specialize (Hl _ H). lia.
-  - pose proof (first_idx_false (geq n) 0 ls c H) as F. unfold geq in F.
-    apply N.leb_gt in F. lia.
+  - pose proof (first_idx_true (geq n) 0 ls ltac:(lia)) as T. apply geq_le in T. specialize (Hl _ H). lia.
+  - pose proof (first_idx_false (geq n) 0 ls c H) as F. apply geq_gt in F. lia.
 Qed.
 
 Lemma setid_loop_down : forall chs ls n, sorted_n ls = true -> go_table_ok chs ls ->
@@ -247,16 +249,15 @@ Proof.
     change (N.of_nat 0 + 1) with (N.of_nat 1). rewrite (Ti O Hc). cbn [N.of_nat]. rewrite T0.
     destruct ((n <=? nth 0 ls 0) && (0 <? n)) eqn:E.
     + apply andb_true_iff in E. destruct E as [_ E]. apply N.ltb_lt in E.
-      f_equal. f_equal. symmetry. apply first_idx_char; auto. intros i Hi. lia.
+      rewrite (first_idx_char ls n O); auto. intros i Hi. lia.
     + assert (Hn : (nth 0 ls 0 <? n) = false) by (apply N.ltb_ge; exact Hu). rewrite Hn.
-      cbn [N.eqb]. f_equal. f_equal. symmetry. apply first_idx_char; auto; [|intros i Hi; lia].
-      apply andb_false_iff in E. destruct E as [E|E]; [apply N.leb_gt in E; lia|]. apply N.ltb_ge in E. lia.
+      cbn [N.eqb]. rewrite (first_idx_char ls n O); auto. intros i Hi. lia.
   - destruct fuel as [|fuel]; [lia|]. cbn [setid_loop].
     replace (N.of_nat (S c) + 1) with (N.of_nat (S (S c))) by lia.
     rewrite (Ti (S c) Hc). rewrite (Ti c ltac:(lia)).
     destruct ((n <=? nth (S c) ls 0) && (nth c ls 0 <? n)) eqn:E.
     + apply andb_true_iff in E. destruct E as [_ E]. apply N.ltb_lt in E.
-      f_equal. f_equal. symmetry. apply first_idx_char; auto.
+      rewrite (first_idx_char ls n (S c)); auto.
       intros i Hi. pose proof (sorted_n_nth ls Hs i c ltac:(lia)). lia.
     + assert (Hn : (nth (S c) ls 0 <? n) = false) by (apply N.ltb_ge; exact Hu). rewrite Hn.
       assert (Hz : (N.of_nat (S c) =? 0) = false) by (apply N.eqb_neq; lia). rewrite Hz.
@@ -267,25 +268,39 @@ Qed.
 
 (* GetSetIDByBlockNumber agrees with AuthoritySetChanges::get_set_id (Latest = current set id)
    whenever the recorded last-block numbers are non-decreasing *)
+Lemma setid_loop_S : forall f chs n curr,
+  setid_loop (S f) chs n curr =
+  match aget chs (curr + 1) with
+  | None => if curr =? 0 then Some 0 else setid_loop f chs n (curr - 1)
+  | Some upper =>
+    match aget chs curr with
+    | None => None
+    | Some lower =>
+      if (n <=? upper) && (lower <? n) then Some curr
+      else if upper <? n then Some (curr + 1)
+      else if curr =? 0 then Some 0 else setid_loop f chs n (curr - 1)
+    end
+  end.
+Proof. reflexivity. Qed.
+
 Lemma setid_lookup_agrees : forall chs ls n, sorted_n ls = true -> go_table_ok chs ls ->
   setid_loop (S (S (length ls))) chs n (N.of_nat (length ls)) =
   Some (match s_setid_in (spec_table_from 0 ls) n with Some id => id | None => N.of_nat (length ls) end).
 Proof.
   intros chs ls n Hs T. pose proof T as [T0 [Ti Tn]].
   rewrite s_setid_in_first. cbn [Nat.add].
-  cbn [setid_loop]. replace (N.of_nat (length ls) + 1) with (N.of_nat (S (length ls))) by lia. rewrite Tn.
+  rewrite setid_loop_S. replace (N.of_nat (length ls) + 1) with (N.of_nat (S (length ls))) by lia. rewrite Tn.
   destruct (length ls) as [|k] eqn:L.
   - cbn [N.of_nat N.eqb]. destruct ls; [reflexivity | discriminate].
   - assert (Hz : (N.of_nat (S k) =? 0) = false) by (apply N.eqb_neq; lia). rewrite Hz.
     replace (N.of_nat (S k) - 1) with (N.of_nat k) by lia.
     destruct (n <=? nth k ls 0) eqn:E.
-    + apply N.leb_le in E. rewrite (setid_loop_down chs ls n Hs T k (S (S k))); [|lia|lia|exact E].
+    + apply N.leb_le in E. rewrite (setid_loop_down chs ls n Hs T k (S k)); [|lia|lia|exact E].
       assert (B : (first_idx (geq n) ls <? S k)%nat = true).
       { apply Nat.ltb_lt. destruct (Nat.lt_ge_cases (first_idx (geq n) ls) (S k)) as [H|H]; [exact H|].
-        pose proof (first_idx_false (geq n) 0 ls k ltac:(lia)) as F. unfold geq in F.
-        apply N.leb_gt in F. lia. }
+        pose proof (first_idx_false (geq n) 0 ls k ltac:(lia)) as F. apply geq_gt in F. lia. }
       rewrite B. reflexivity.
-    + apply N.leb_gt in E. cbn [setid_loop].
+    + apply N.leb_gt in E. rewrite setid_loop_S.
       replace (N.of_nat k + 1) with (N.of_nat (S k)) by lia. rewrite (Ti k ltac:(lia)).
       assert (A : aget chs (N.of_nat k) <> None).
       { destruct k; [cbn; rewrite T0; discriminate | rewrite (Ti k ltac:(lia)); discriminate]. }
@@ -294,8 +309,7 @@ Proof.
       assert (E2 : (nth k ls 0 <? n) = true) by (apply N.ltb_lt; exact E). rewrite E2.
       assert (B : (first_idx (geq n) ls <? S k)%nat = false).
       { apply Nat.ltb_ge. destruct (Nat.lt_ge_cases (first_idx (geq n) ls) (S k)) as [H|H]; [|exact H].
-        pose proof (first_idx_true (geq n) 0 ls ltac:(lia)) as T1. unfold geq in T1.
-        apply N.leb_le in T1.
+        pose proof (first_idx_true (geq n) 0 ls ltac:(lia)) as T1. apply geq_le in T1.
         pose proof (sorted_n_nth ls Hs (first_idx (geq n) ls) k ltac:(lia)). lia. }
       rewrite B. f_equal. lia.
 Qed.
